@@ -232,6 +232,34 @@ static void f_token(const void * arg, const char * s, int n) { check_token((cons
 static void f_alldata(const void * arg, const char * s, int n) { check_alldata((const rec_t *) arg, s, n); }
 static void f_unit(const void * arg, const char * s, int n) { (void) arg; check_unit(s, n); }
 
+/* every byte value 0..255, alone, doubled and in every position of a 3-byte context typical for the recogniser:
+ * the class representatives of the main enumeration must not hide a byte that is classified differently */
+static void all_bytes(void) {
+    static const char * ctx3[] = {"#H1", "#Q1", "#B1", "A1_", "1E2", "1.V", "\"a\"", "'a'", "(1)", "#11", " \t ", "*A?", ":A:", "1 V", "A,B"};
+    int r, b, c, k;
+    char s[4];
+    for (r = 0; r < NREC; r++) {
+        for (b = 0; b < 256; b++) {
+            if (!MC_CASE()) continue;
+            mc_case_tag = "all-bytes"; mc_case_i[0] = r; mc_case_i[1] = b;
+            s[0] = (char) b;
+            if (recs[r].kind == 2) check_alldata(&recs[r], s, 1); else check_token(&recs[r], s, 1);
+            s[1] = (char) b;
+            if (recs[r].kind == 2) check_alldata(&recs[r], s, 2); else check_token(&recs[r], s, 2);
+            for (c = 0; c < (int) (sizeof ctx3 / sizeof ctx3[0]); c++) for (k = 0; k < 3; k++) {
+                memcpy(s, ctx3[c], 3); s[k] = (char) b;
+                if (recs[r].kind == 2) check_alldata(&recs[r], s, 3); else check_token(&recs[r], s, 3);
+            }
+        }
+    }
+    for (b = 0; b < 256; b++) {
+        static const char * u3[] = {"A 1", "A;B", "*A?", "A:B", "A\nB", "A #", "A\r\n"};
+        if (!MC_CASE()) continue;
+        mc_case_tag = "all-bytes-unit"; mc_case_i[1] = b;
+        for (c = 0; c < 7; c++) for (k = 0; k < 3; k++) { memcpy(s, u3[c], 3); s[k] = (char) b; check_unit(s, 3); }
+    }
+}
+
 /* grammar-generated long tokens */
 static void long_tokens(void) {
     char buf[700];
@@ -261,6 +289,9 @@ static void long_tokens(void) {
         for (k = 0; k < n; k++) buf[k] = (char) (k == 0 ? 'A' : k % 5 == 0 ? ':' : k % 5 == 1 ? 'b' : '0' + k % 10);
         check_token(&recs[1], buf, n);
         check_unit(buf, n);
+        for (k = 0; k < n; k++) buf[k] = (char) (k == 0 ? 'S' : k % 9 == 8 ? '_' : k % 9 == 4 ? '7' : 'a' + k % 26);       /* ONE mnemonic of n characters */
+        check_token(&recs[1], buf, n); check_token(&recs[2], buf, n); check_unit(buf, n);
+        if (n + 2 < (int) sizeof buf) { buf[n] = '?'; check_token(&recs[1], buf, n + 1); buf[n] = ':'; buf[n + 1] = 'X'; check_token(&recs[1], buf, n + 2); }
     }
 }
 
@@ -273,6 +304,7 @@ int main(int argc, char ** argv) {
         else enumerate(recs[r].alpha, recs[r].nalpha, L, f_token, &recs[r], recs[r].name);
     }
     enumerate(unit_alpha, (int) sizeof unit_alpha - 1, mc_thorough ? 6 : 5, f_unit, NULL, "detectProgramMessageUnit");
+    all_bytes();
     long_tokens();
     if (mc_shard == 0) {
         mc_sample("ProgramHeader on every string of length <= %d over [%s]", mc_thorough ? recs[1].lt : recs[1].lq, mc_e(recs[1].alpha, (size_t) recs[1].nalpha));
